@@ -76,6 +76,9 @@ def tlc_mc(module, cfg, wd, workers=8, timeout=1500, heap="6g", extra="", simula
     if m:
         res["states"] = int(m.group(1))
         res["distinct"] = int(m.group(2))
+    m2 = re.search(r"The number of states generated: (\d+)", out)
+    if m2 and not m:
+        res["states"] = int(m2.group(1))       # simulation mode
     res["violated"] = bool(re.search(r"Invariant .* is violated|Temporal properties were violated|"
                                      r"Action property .* is violated|Deadlock reached", out))
     res["completed"] = ("Model checking completed. No error has been found" in out) or \
